@@ -458,8 +458,38 @@ def r4(ctx):
                     got.add(int(fs[1]))
         return sorted(got)
 
+    def pair_field(o):
+        """k if o is field k of `component.split_once('=').unwrap_or((component, ""))` (desugared: the pair is either the
+        split_once payload or the default tuple whose first part is the whole component and second the empty string)."""
+        od_ = b.origin_def(o)
+        if not (od_ and od_[0] == "place"):
+            return None
+        fs_ = [e for e in od_[1]["proj"] if isinstance(e, dict) and "field" in e]
+        if len(fs_) != 1 or len([e for e in od_[1]["proj"] if e != "deref"]) != 1:
+            return None
+        ds_ = [d for d in b.defs().get(od_[1]["local"], []) if d["kind"] == "assign"]
+        pay = [d for d in ds_ if d["stmt"]["rv"]["k"] == "use" and op_place(d["stmt"]["rv"]["op"]) and any(isinstance(e, dict) and e.get("downcast") == "Some" for e in op_place(d["stmt"]["rv"]["op"])["proj"])
+               and b.slice([op_place(d["stmt"]["rv"]["op"])["local"]]).has_call(r"str>::split_once$")]
+        dfl = []
+        for d in ds_:
+            od2 = b.origin_def(d["stmt"]["rv"]["op"]) if d["stmt"]["rv"]["k"] == "use" else None
+            if od2 and od2[0] == "def" and od2[1]["kind"] == "assign" and od2[1]["stmt"]["rv"].get("tuple") and len(od2[1]["stmt"]["rv"]["ops"]) == 2:
+                dfl.append(od2[1]["stmt"]["rv"])
+            elif d["stmt"]["rv"].get("tuple") and len(d["stmt"]["rv"]["ops"]) == 2:
+                dfl.append(d["stmt"]["rv"])
+        if len(ds_) != 2 or len(pay) != 1 or len(dfl) != 1:
+            return None
+        whole, empty = b.slice_op(dfl[0]["ops"][0]), const_str_of(b, dfl[0]["ops"][1])[0]
+        if empty != "" or whole.has_call(r"str>::split_once$|str>::(trim\w*|get|split_at)$|ops::Index::index$"):
+            return None
+        return fs_[0]["idx"]
+
     role = {}
     for nb, nt in norm:
+        pf = pair_field(nt["args"][0])
+        if pf in (0, 1) and so:
+            role[nb] = pf
+            continue
         i = idxs(b.slice_op(nt["args"][0]))
         if i == [0]:
             role[nb] = 0
